@@ -103,6 +103,30 @@ def xValidatorTable : List ((Bytes × Bytes) × XAttr) :=
     ((sSubject, [79]), .o),
     ((sSubject, [79,85]), .ou) ]
 
+/-- the attribute a validator body compares, from what the extractor read in the function literal
+    (`mode`: `contains` = `slices.Contains(attr, value)`, `eq` = `attr != value`, `ipstr` = loop with `ip.String() == value`) -/
+def attrOfField (mode field : String) : Option XAttr :=
+  if mode = "contains" ∧ field = "findOtherNameValues(cert)" then some .otherName else
+  if mode = "contains" ∧ field = "cert.DNSNames" then some .dns else
+  if mode = "contains" ∧ field = "cert.EmailAddresses" then some .email else
+  if mode = "ipstr" ∧ field = "cert.IPAddresses" then some .ip else
+  if mode = "eq" ∧ field = "cert.Subject.SerialNumber" then some .serial else
+  if mode = "eq" ∧ field = "cert.Subject.CommonName" then some .cn else
+  if mode = "contains" ∧ field = "cert.Subject.Locality" then some .l else
+  if mode = "contains" ∧ field = "cert.Subject.Country" then some .c else
+  if mode = "contains" ∧ field = "cert.Subject.Province" then some .st else
+  if mode = "contains" ∧ field = "cert.Subject.StreetAddress" then some .street else
+  if mode = "contains" ∧ field = "cert.Subject.Organization" then some .o else
+  if mode = "contains" ∧ field = "cert.Subject.OrganizationalUnit" then some .ou else none
+
+/-- the validator table from the regenerated rows; `none` when a row is not understood -/
+def tableOfFacts : List ((Bytes × Bytes) × String × String) → Option (List ((Bytes × Bytes) × XAttr))
+  | [] => some []
+  | (k, mode, field) :: rest =>
+    match attrOfField mode field, tableOfFacts rest with
+    | some a, some t => some ((k, a) :: t)
+    | _, _ => none
+
 def lookupValidator (tbl : List ((Bytes × Bytes) × XAttr)) (name key : Bytes) : Option XAttr :=
   match tbl.find? (fun e => e.1 = (name, key)) with
   | some e => some e.2
